@@ -104,6 +104,10 @@ inductive BatchOp where
   | dropConstraint (name : String)
   | createIndex (ix : Index)
   | dropIndex (name : String)
+  /-- not an operation of its own: the `alter_column` / `drop_column` call that follows was given
+      `existing_type=` a schema type (Boolean / Enum with `create_constraint=True`) whose CHECK constraint is
+      called `name`; the flags say whether that call renames the column, changes its type, or drops it -/
+  | existingTypeConst (name : String) (renames retypes drops : Bool)
   deriving DecidableEq, Repr
 
 inductive Err where
